@@ -28,6 +28,7 @@ from numpy import (
     zeros,
 )
 from numpy.linalg import (
+    LinAlgError,
     inv,
     pinv,
 )
@@ -363,7 +364,12 @@ def _complex_test(
     abs_X_exp: NDArray[float64] = abs(X_exp)
 
     # Fit using the complex impedance
-    x: NDArray[float64] = inv(A_re.T.dot(A_re) + A_im.T.dot(A_im))
+    x: NDArray[float64]
+    try:
+        x = inv(A_re.T.dot(A_re) + A_im.T.dot(A_im))
+    except LinAlgError:
+        # Singular matrix
+        x = pinv(A_re.T.dot(A_re) + A_im.T.dot(A_im))
 
     y: NDArray[float64] = A_re.T.dot(X_exp.real / abs_X_exp) + A_im.T.dot(
         X_exp.imag / abs_X_exp
